@@ -1,7 +1,8 @@
 """C45 - command-line arguments reach commands unchanged.
 
 Clause 1 ("q" cases): 1-4 arbitrary strings are quoted with command_lexer.quote, joined with whitespace after the name
-of a registered test command (str parameters: one, two, *args) and run through CommandManager.execute; the command must
+of a registered test command (str parameters: one, two, *args; or - for arguments without both kinds of
+quotes - *args of the verbatim CmdArgs type, where backslashes are no excuse) and run through CommandManager.execute; the command must
 receive exactly the strings.
 Clause 2 ("s" cases): a line is built from tokens - unquoted words (no quote, whitespace or backslash characters),
 fully quoted strings, and (separate class) words with a quote character in the middle - separated by generated runs of
@@ -11,6 +12,8 @@ whitespace gives the expected argument list (for quote-inside-word tokens only t
 import re
 
 from hypothesis import strategies as st
+
+import mitmproxy.types
 
 from runner import HarnessError
 
@@ -35,7 +38,7 @@ BUDGET_S = (300, 7200)
 WS = " \t\r\n"
 _pieces = st.sampled_from([
     " ", " ", "\t", "\r", "\n", "\x0b", "\x0c", "\xa0", "\u2028", "\x85", "\x1c", "'", "'", '"', '"', "\\", "\\", "\\\\",
-    "\\n", "\\t", "\\x41", "\\x22", "\\x", "\\xZZ", "\\1", "\\101", "\\u00e9", "\\u12", "\\U0001F600", "\\N{DASH}", "\\N{nope}",
+    "\\n", "\\t", "\\x41", "\\x22", "\\x22", "\\x27", "\\\\x22", "\\x", "\\xZZ", "\\1", "\\101", "\\u00e9", "\\u12", "\\U0001F600", "\\N{DASH}", "\\N{nope}",
     "\\'", '\\"', "\\a", "\\q", "a", "b", "foo", "bar", "x", "0", "é", "ш", "日", "\U0001f600", ",", "=", "~", "@", "-", "|", ";", "#",
     "$", "`", "{", "}", "%", "*", "",
 ])
@@ -85,6 +88,11 @@ class _Addon:
     def var(self, *args: str) -> None:
         self.got.append(("var", list(args)))
 
+    def raw(self, *args: mitmproxy.types.CmdArgs) -> None:
+        # an argument type that takes the text as it is (no escape processing): what arrives is exactly what
+        # quote/lexer/unquote made of the argument
+        self.got.append(("raw", list(args)))
+
 
 def _cm():
     global _CM
@@ -96,6 +104,7 @@ def _cm():
         cm.add("t.one", a.one)
         cm.add("t.two", a.two)
         cm.add("t.var", a.var)
+        cm.add("t.raw", a.raw)
         _CM = (tctx, cm, a)
     return _CM
 
@@ -143,6 +152,11 @@ def check_case(case, ctx):
         _, args, runs, use_var = case
         quoted = [command_lexer.quote(a) for a in args]
         name = "t.var" if use_var or len(args) > 2 else ("t.one" if len(args) == 1 else "t.two")
+        # about every third case goes to the command with verbatim arguments.  quote() relies on the str type's escape
+        # processing only for values that contain both kinds of quotes; everything else must arrive verbatim.
+        raw = runs[4] != " " and not any("'" in a and '"' in a for a in args)
+        if raw:
+            name = "t.raw"
         line = name
         for i, qa in enumerate(quoted):
             line += runs[i] + qa
@@ -161,7 +175,7 @@ def check_case(case, ctx):
                     cls.add("backslash")
                 if a == "":
                     cls.add("empty")
-            ctx.nt(line, "q:" + "+".join(sorted(cls)))
+            ctx.nt(line, ("raw:" if raw else "q:") + "+".join(sorted(cls)))
         else:
             ctx.cls("q:plain")
         try:
@@ -177,16 +191,17 @@ def check_case(case, ctx):
         spacey = [a for a, qa in zip(args, quoted) if a and a.isspace() and qa == a]
         what = "rejected" if err is not None else ("count" if len(got) != len(args) else "changed")
         detail = "line=%r expected=%r got=%r err=%r" % (line, args, got, err)
-        bs = any("\\" in a for a in args)
+        bs = any("\\" in a for a in args) and not raw   # (no escape processing, no excuse, for verbatim arguments)
         if spacey and ((err is not None and not bs) or (err is None and len(got) < len(args))):
             ctx.fail("arg-dropped:unquoted-isspace-only", detail)
         elif err is not None or len(got) != len(args):
-            ctx.fail("arg-%s:%s" % (what, "backslash-escape" if any("\\" in a for a in args) else "other"), detail)
+            ctx.fail("arg-%s:%s" % (what, "backslash-escape" if bs else "verbatim-type" if raw else "other"), detail)
         else:
             causes = set()
             for a, g in zip(args, got):
                 if a != g:
-                    causes.add("tab-expanded" if _only_tabs_differ([g], [a]) else "backslash-escape" if "\\" in a else "other")
+                    causes.add("tab-expanded" if _only_tabs_differ([g], [a]) else "verbatim-type" if raw else
+                               "backslash-escape" if "\\" in a else "other")
             for c in sorted(causes):
                 ctx.fail("arg-changed:" + c, detail)
         return
